@@ -50,6 +50,9 @@ Seeds == {
        propertyNames |-> Sch([type |-> "object", title |-> "Thing", minProperties |-> 7]),
        depsS |-> << <<"a", Sch([type |-> "object", title |-> "Thing", minProperties |-> 8])>> >>])
     @@ ("not" :> Sch([type |-> "object", title |-> "Thing", minProperties |-> 9])),
+  (* a required name without a declared property next to additionalProperties / patterns *)
+  Sch([type |-> "object", title |-> "T", required |-> <<"a", "b">>, additionalProperties |-> FalseS,
+       patternProperties |-> << <<"^b", Ty("integer")>> >>]),
   (* two differently named object classes of identical shape in one tree *)
   Sch([type |-> "object", title |-> "T",
        properties |-> << <<"a", Sch([type |-> "object", properties |-> << <<"b", Ty("string")>> >>])>>,
